@@ -1,3 +1,139 @@
-import EpsicProofs.FieldArith
+import EpsicProofs.Lemmas.Linear
+import Mathlib.Algebra.BigOperators.Intervals
+import Mathlib.Tactic.Linarith
+/-! # C06 — sample-mean statistics follow exactly from per-instance (cross-)covariances
+
+`Sim.sampleCovEntry` / `Sim.sampleXCovEntry` are `sample::get_covariance(mode*, n)` and
+`sample::get_crosscovariance(mode*, lag, n)` for one matrix entry (all matrix operations there are
+element-wise).  `X l` is the mode's per-instance cross-covariance at instance lag `l`.  For every
+`n ≥ 1`, every sample lag and every sequence `X`. -/
+set_option linter.unusedSectionVars false
+set_option linter.unusedVariables false
 namespace Epsic.C06
+open Epsic Finset
+variable {K : Type} [Field K] [DecidableEq K] [CharZero K]
+
+/-- absolute instance lag between instance `i` of the later sample and instance `j` of the earlier -/
+def alag (a j : Nat) : Nat := if a ≥ j then a - j else j - a
+
+/-- the exact double sum over all pairs of instances -/
+def doubleSum (X : Nat → K) (lag n : Nat) : K := ∑ i ∈ range n, ∑ j ∈ range n, X (alag (lag * n + i) j)
+
+theorem foldl_range_add (n : Nat) (f : Nat → K) (a : K) :
+    (List.range n).foldl (fun acc k => acc + f k) a = a + ∑ k ∈ range n, f k := by
+  induction n generalizing a with
+  | zero => simp
+  | succ n ih => rw [List.range_succ, List.foldl_append]; simp [ih, Finset.sum_range_succ, add_assoc]
+
+/-- the cross-covariance loop *is* the double sum divided by `n²` -/
+theorem sampleXCov_eq (X : Nat → K) (lag n : Nat) :
+    Sim.sampleXCovEntry X lag n (Sim.nSqScalar n) = doubleSum X lag n / ((n : K) * n) := by
+  unfold Sim.sampleXCovEntry doubleSum Sim.nSqScalar
+  simp only [zero_eq, ofNat_eq]
+  congr 1
+  have inner : ∀ (i : Nat) (acc : K), (List.range n).foldl (fun acc2 j =>
+      acc2 + X (if lag * n + i ≥ j then lag * n + i - j else j - (lag * n + i))) acc
+      = acc + ∑ j ∈ range n, X (alag (lag * n + i) j) := by
+    intro i acc; rw [foldl_range_add]; rfl
+  simp only [inner]
+  have outer : ∀ (m : Nat) (a : K), (List.range m).foldl (fun acc i => acc + ∑ j ∈ range n, X (alag (lag * n + i) j)) a
+      = a + ∑ i ∈ range m, ∑ j ∈ range n, X (alag (lag * n + i) j) := fun m a => foldl_range_add m _ a
+  rw [outer]; simp
+
+/-- the triangle identity behind `get_covariance`: the `n × n` square of instance pairs summed by
+diagonals -/
+theorem square_by_diagonals (X : Nat → K) (n : Nat) :
+    ∑ i ∈ range n, ∑ j ∈ range n, X (alag i j)
+      = (n : K) * X 0 + ∑ k ∈ range (n - 1), X (k + 1) * (2 * ((n - (k + 1) : Nat) : K)) := by
+  induction n with
+  | zero => simp
+  | succ n ih =>
+    -- peel the last row and the last column
+    have hrow : ∀ i ∈ range n, ∑ j ∈ range (n + 1), X (alag i j) = ∑ j ∈ range n, X (alag i j) + X (n - i) := by
+      intro i hi
+      rw [Finset.sum_range_succ]
+      have : i < n := Finset.mem_range.mp hi
+      simp [alag, not_le.mpr this]
+    have hlast : ∑ j ∈ range (n + 1), X (alag n j) = ∑ j ∈ range n, X (n - j) + X 0 := by
+      rw [Finset.sum_range_succ]
+      congr 1
+      · apply Finset.sum_congr rfl; intro j hj
+        have : j < n := Finset.mem_range.mp hj
+        simp [alag, le_of_lt this]
+      · simp [alag]
+    rw [Finset.sum_range_succ, Finset.sum_congr rfl hrow, Finset.sum_add_distrib, ih, hlast]
+    -- Σ_{i<n} X (n - i) = Σ_{k<n} X (k+1)
+    have hrefl : ∑ i ∈ range n, X (n - i) = ∑ k ∈ range n, X (k + 1) := by
+      rw [← Finset.sum_range_reflect]
+      apply Finset.sum_congr rfl; intro k hk
+      have : k < n := Finset.mem_range.mp hk
+      congr 1; omega
+    rw [hrefl]
+    cases n with
+    | zero => simp
+    | succ m =>
+      simp only [Nat.add_sub_cancel]
+      rw [Finset.sum_range_succ (fun k => X (k + 1) * (2 * (((m + 1 + 1 - (k + 1) : Nat)) : K)))]
+      have h1 : ∀ k ∈ range m, X (k + 1) * (2 * (((m + 1 + 1 - (k + 1) : Nat)) : K))
+          = X (k + 1) * (2 * (((m + 1 - (k + 1) : Nat)) : K)) + 2 * X (k + 1) := by
+        intro k hk
+        have hk' : k < m := Finset.mem_range.mp hk
+        have e1 : m + 1 + 1 - (k + 1) = (m + 1 - (k + 1)) + 1 := by omega
+        rw [e1]; push_cast; ring
+      rw [Finset.sum_congr rfl h1, Finset.sum_add_distrib, Finset.sum_range_succ (fun k => X (k + 1))]
+      have e2 : m + 1 + 1 - (m + 1) = 1 := by omega
+      rw [e2]
+      simp only [← Finset.mul_sum]
+      push_cast
+      ring
+
+/-- **predicted covariance of the sample mean = the double sum over all instance pairs / n²**
+(when the mode's lag-0 cross-covariance is its covariance) -/
+theorem sampleCov_eq (X : Nat → K) (n : Nat) :
+    Sim.sampleCovEntry (X 0) X n (Sim.nSqScalar n) = doubleSum X 0 n / ((n : K) * n) := by
+  unfold Sim.sampleCovEntry doubleSum Sim.nSqScalar
+  simp only [ofNat_eq, two_eq, Nat.zero_mul, Nat.zero_add]
+  congr 1
+  rw [foldl_range_add, square_by_diagonals]
+  ring
+/-- **the predicted cross-covariance at lag zero equals the predicted covariance** -/
+theorem xcov_lag0_eq_cov (X : Nat → K) (n : Nat) :
+    Sim.sampleXCovEntry X 0 n (Sim.nSqScalar n) = Sim.sampleCovEntry (X 0) X n (Sim.nSqScalar n) := by
+  rw [sampleXCov_eq, sampleCov_eq]
+/-- for a mode whose lag-0 cross-covariance differs from its covariance (`c ≠ X 0`) the two disagree:
+the defect the repair of the modulated modes removed -/
+theorem lag0_mismatch_propagates (X : Nat → K) (c : K) (n : Nat) (hn : 0 < n) (hc : c ≠ X 0) :
+    Sim.sampleCovEntry c X n (Sim.nSqScalar n) ≠ Sim.sampleCovEntry (X 0) X n (Sim.nSqScalar n) := by
+  unfold Sim.sampleCovEntry Sim.nSqScalar
+  simp only [ofNat_eq, two_eq, foldl_range_add]
+  have hn' : (n : K) ≠ 0 := Nat.cast_ne_zero.mpr (Nat.pos_iff_ne_zero.mp hn)
+  intro h
+  have h2 : (n : K) * n ≠ 0 := mul_ne_zero hn' hn'
+  rw [div_left_inj' h2] at h
+  have : c * n = X 0 * n := by linear_combination h
+  exact hc (mul_right_cancel₀ hn' this)
+
+/-- the machine-integer side condition: the divisor the source used before the repair wraps to zero -/
+theorem nSq_wraps_at_65536 : (Sim.nSqWrapped 65536 : ℚ) = 0 := by
+  simp [Sim.nSqWrapped]
+theorem nSq_agree_below (n : Nat) (h : n < 65536) : (Sim.nSqWrapped n : K) = Sim.nSqScalar n := by
+  unfold Sim.nSqWrapped Sim.nSqScalar
+  have : n * n < 4294967296 := by nlinarith
+  rw [Nat.mod_eq_of_lt this]; simp
+theorem current_repaired : Sim.currentNSqRepaired = true ∧ Sim.currentLag0Repaired = true := ⟨rfl, rfl⟩
+
+/-- a sample of `n` instances is generated from exactly `n` draws: the mean of the first `n`
+elements of the instance stream -/
+def singleSample (n : Nat) (src : Nat → K) : K := (List.range n).foldl (fun acc i => acc + src i) 0 / n
+theorem singleSample_eq (n : Nat) (src : Nat → K) : singleSample n src = (∑ i ∈ range n, src i) / n := by
+  unfold singleSample; rw [foldl_range_add]; simp
+theorem singleSample_uses_first_n (n : Nat) (src src' : Nat → K) (h : ∀ i < n, src i = src' i) :
+    singleSample n src = singleSample n src' := by
+  rw [singleSample_eq, singleSample_eq]
+  congr 1; apply Finset.sum_congr rfl; intro i hi; exact h i (Finset.mem_range.mp hi)
+
+/-! non-vacuity -/
+example : doubleSum (fun l => if l = 0 then (2:ℚ) else if l = 1 then 1 else 0) 0 3 = 10 := by
+  simp [doubleSum, alag, Finset.sum_range_succ]; norm_num
+
 end Epsic.C06
